@@ -462,6 +462,8 @@ class Tr:
                 return self.block(list(s.body) + list(rest), env, tail)
             fail(s, f"statement {type(s).__name__}")
         if tail is None:
+            if self.option:
+                return "Some tt"
             fail(self.fnode, "function body ends without return")
         return tail(env)
 
@@ -705,6 +707,10 @@ class Tr:
                 parts = []
                 for n in joined:
                     v = self.lookup(n, e, s)
+                    if isinstance(v, SV) and all(isinstance(i, Sc) for i in v.items):
+                        kinds_out[n] = ("SV", len(v.items))
+                        parts += [i.t for i in v.items]
+                        continue
                     if not isinstance(v, (Sc, DL)):
                         fail(s, f"joined variable {n} of kind {type(v).__name__}")
                     kinds_out[n] = type(v)
@@ -717,12 +723,19 @@ class Tr:
         if k1 != k2:
             fail(s, "branches disagree on variable kinds")
         env2 = dict(env)
+        names_flat = []
         for n in joined:
-            env2[n] = k1[n](mangle(n))
-        if len(joined) == 1:
-            pat = mangle(joined[0])
+            if isinstance(k1[n], tuple):
+                els = [f"{mangle(n)}_{i}" for i in range(k1[n][1])]
+                env2[n] = SV([Sc(e_) for e_ in els])
+                names_flat += els
+            else:
+                env2[n] = k1[n](mangle(n))
+                names_flat.append(mangle(n))
+        if len(names_flat) == 1:
+            pat = names_flat[0]
         else:
-            pat = "'(" + ", ".join(mangle(n) for n in joined) + ")"
+            pat = "'(" + ", ".join(names_flat) + ")"
         pre = f"let {pat} := (if {ct} then\n{a}\nelse\n{b}) in\n"
         return pre + self.block(rest, env2, tail)
 
@@ -1386,6 +1399,14 @@ def _size(tr, node, args, kwargs):
     fail(node, "np.size of dynamic list")
 
 
+def _len(tr, node, args, kwargs):
+    if len(args) == 1 and isinstance(args[0], (SV, Tu)):
+        r = Sc(str(len(args[0].items)))
+        r.pyconst = len(args[0].items)
+        return r
+    fail(node, "len() of a value of unknown length")
+
+
 def _float(tr, node, args, kwargs):
     if len(args) == 1 and isinstance(args[0], Sc):
         return args[0]
@@ -1546,7 +1567,7 @@ BUILTINS = {
     "np.sum": _sum, "sum": _sum,
     "max": _minmax("Rmax"), "min": _minmax("Rmin"),
     "np.array": _array, "np.zeros": _zeros, "np.ndim": _ndim, "np.size": _size,
-    "float": _float, "np.clip": _clip, "np.minimum": _minimum, "np.arange": _arange,
+    "float": _float, "len": _len, "np.clip": _clip, "np.minimum": _minimum, "np.arange": _arange,
     "np.full_like": _full_like, "np.empty_like": _empty_like, "np.result_type": _result_type,
     "cumulative_trapezoid": _cumtrapz, "sp.integrate.cumulative_trapezoid": _cumtrapz,
     "integrate.cumulative_trapezoid": _cumtrapz,
